@@ -277,6 +277,10 @@ func (st *State) addTrace(ev TraceEv) {
 // Engine-wide fresh names
 
 type Engine struct {
+	// loops without an invariant in the contract file (typically introduced or moved by a refactoring):
+	autoLoop    map[string][]int  // map-range loop -> indices of the candidate invariants still in use
+	autoCut     map[string]bool   // other loops that ran past the unwinding bound: cut with invariant `true`
+	autoCutWant map[string]bool
 	dropAtBound bool              // bounded function: paths that exceed the unwinding bound are dropped (stated bound)
 	unrollAll   bool              // bounded variant: loops are unrolled instead of cut at their invariants
 	entryShapes map[string]string // input-map name -> shape of its entries in the current variant (bounded shapes)
